@@ -365,7 +365,8 @@ let () =
          reset_state (); in_scn := true; dead := false
        end else if !in_scn && not !dead && line <> "" && line.[0] <> '%' then begin
          (try run_line line with
-          | Faulted k -> pf "! fault %s\n" k; dead := true)
+          | Faulted k -> pf "! fault %s\n" k; dead := true
+          | e -> pf "! glue-error %s\n" (Printexc.to_string e); dead := true)   (* the glue could not read the line: this scenario only *)
        end;
        if Buffer.length out > (1 lsl 16) then begin print_string (Buffer.contents out); Buffer.clear out end
      done
